@@ -255,6 +255,23 @@ func runC01(r *rt.Run) {
 			})
 		})
 	}
+	// rings with 40-100 vertices (also densified past the default index threshold, and as holes): every integer point of the frame
+	{
+		var probes []exact.P
+		for y := int64(-62); y <= 62; y++ {
+			for x := int64(-62); x <= 62; x++ {
+				probes = append(probes, exact.P{X: x, Y: y})
+			}
+		}
+		fp := ident.pts(probes)
+		shapes := bigRingShapes(nil)
+		r.Bounds["big_rings"] = len(shapes)
+		r.ParFor(len(shapes), func(i int, w *rt.Worker) {
+			w.Trans += int64(len(shapes[i].E.Skeleton()))
+			c01Shape(shapes[i].E, ident, probes, fp, idxCfgs, w, false)
+			c01Object(shapes[i].E, ident, probes, fp, idxCfgs[3], w)
+		})
+	}
 	// two holes: every triangle over the 3x3 sub-lattice x a second hole from
 	// the same set (thorough) / from a fixed list (quick)
 	L3in := lat.Lattice(3, 1)
